@@ -272,7 +272,7 @@ def check_scripts(repo_src, rnd):
     for sc in corpus.SCRIPTS + corpus.adjacency_scripts():
         steps = []
         for (m, s, extra) in sc['steps']:
-            d = dict(m=('rt' if m == 'parse' else m), s=s); d.update(extra); steps.append(d)
+            d = dict(m=('rt' if m in ('parse', 'describe') else m), s=s); d.update(extra); steps.append(d)
         res = run_cases(steps, repo_src, script=True)
         n += len(steps)
         T = oracle.Table()
@@ -286,7 +286,13 @@ def check_scripts(repo_src, rnd):
             if r is None or r.get('panic'):
                 out.append(_disc('script', ['C08', 'C01'], case, str(ex), 'panic/abort', 'step %r did not return' % (st,))); continue
             if ex[0] == 'val' and r.get('val') != ex[1]:
-                out.append(_disc('script', ['C08'], case, ex[1], r.get('val') or ('Err(%s)' % r.get('err')), 'the most recently registered handler / the context binding is not the one used'))
+                out.append(_disc('script', ['C08'] + (list(ex[2]) if len(ex) > 2 else []), case, ex[1], r.get('val') or ('Err(%s)' % r.get('err')), 'the most recently registered handler / the context binding is not the one used'))
+            elif ex[0] == 'trace' and r.get('trace') != ex[1]:
+                out.append(_disc('script', ['C07'], case, ex[1], r.get('trace'), 'operands of a registered operator are evaluated in a different order / number of times'))
+            elif ex[0] == 'describe' and r.get('describe') != ex[1]:
+                out.append(_disc('script', ['C18'], case, ex[1], r.get('describe') or ('Err(%s)' % r.get('err')), 'describe() does not render the node with the descriptor of its own kind and name'))
+            elif ex[0] == 'roundtrip' and not (r.get('ok') and r.get('ok2') and r.get('ast2') == r.get('ast')):
+                out.append(_disc('script', ['C12', 'C08'], case, r.get('ast') or 'Ok', 'expr()=%r -> %s' % (r.get('expr'), r.get('ast2') or ('Err(%s)' % (r.get('err2') or r.get('err')))), 'after a registration, expr() output does not re-parse to the same AST (printer and parser disagree on the table)'))
             elif ex[0] == 'ast' and r.get('ast') != ex[1]:
                 out.append(_disc('script', ['C08', 'C10'], case, ex[1], r.get('ast') or ('Err(%s)' % r.get('err')), 'a registration made after first use is not honoured by the tokenizer/parser'))
             elif ex[0] == 'reject' and r.get('ok'):
@@ -301,8 +307,8 @@ def check_scripts(repo_src, rnd):
     return out, n
 
 CATS = {'parse': check_parse, 'exec': check_exec, 'conv': check_conv, 'script': check_scripts}
-PROP_CATS = {'C01': ['parse', 'exec'], 'C02': ['parse', 'script'], 'C03': ['exec', 'script'], 'C04': ['exec', 'conv'], 'C05': ['parse'], 'C06': ['exec', 'script'], 'C07': ['exec', 'script'], 'C08': ['script', 'exec'],
-             'C09': ['exec', 'parse'], 'C10': ['parse', 'script'], 'C12': ['parse'], 'C17': ['conv'], 'C18': ['parse']}
+PROP_CATS = {'C01': ['parse', 'exec'], 'C02': ['parse', 'script'], 'C03': ['exec', 'script'], 'C04': ['exec', 'conv', 'script'], 'C05': ['parse', 'script'], 'C06': ['exec', 'script'], 'C07': ['exec', 'script'], 'C08': ['script', 'exec'],
+             'C09': ['exec', 'parse', 'script'], 'C10': ['parse', 'script'], 'C12': ['parse', 'script'], 'C17': ['conv'], 'C18': ['parse', 'script']}
 _cache = {}
 def run_category(cat, repo_src, seed=0, random_only=False):
     """seed 0 is the registered corpus (fixed cases + the seed-0 random cases); other seeds with random_only draw fresh random cases only (thorough tier)"""
